@@ -37,7 +37,17 @@ class TermContract:
             else:
                 env[name] = kind  # a concrete default value
         self.env0 = dict(env)
-        pc = [pred(t, env) if not t.startswith("not ") else z3.Not(pred(t[4:], env)) for t in self.requires]
+        pc = []
+        for t in self.requires:
+            if t.startswith("never "):
+                # the condition is false whatever term the named variables hold at that point (they may have been re-assigned by then)
+                body = pred(t[6:], env)
+                vs = [z3.Const("any_%d" % i, a.sort()) for i, a in enumerate(body.children())]
+                pc.append(z3.ForAll(vs, z3.Not(body.decl()(*vs))) if vs else z3.Not(body))
+            elif t.startswith("not "):
+                pc.append(z3.Not(pred(t[4:], env)))
+            else:
+                pc.append(pred(t, env))
         return env, pc
 
     toqito_names = set(["is_positive_semidefinite", "is_ppt", "is_hermitian", "is_identity", "is_herm_preserving", "is_completely_positive", "is_trace_preserving"])
@@ -257,5 +267,11 @@ CONTRACTS = {
                                 "XORGame.classical_value() is the classical value of the game's conversion to a general nonlocal game"),
     "XORGame.nonsignaling_value": ("toqito/nonlocal_games/xor_game.py", [("self", "arr")], [], lambda e: uf("method:nonsignaling_value", R, uf("method:to_nonlocal_game", Arr, e["self"])),
                                    "XORGame.nonsignaling_value() is the non-signaling value of the game's conversion to a general nonlocal game"),
+    "negativity": ("toqito/state_props/negativity.py", [("rho", "arr"), ("dim", "arr")], ["not dim is None", "isinstance(dim, list)", "never isinstance(dim, int)", "never np.prod(dim) != rho_dims[0]"],
+                   lambda e: (uf("np.linalg.norm[ord='nuc']", R, tq("partial_transpose", Arr, consts=["sys=[1]"], rho=tq("to_density_matrix", Arr, input_array=e["rho"]), dim=uf("map[int(x.item()) for x]", Arr, uf("np.array", Arr, e["dim"])))) - 1) / 2,
+                   "negativity(rho, dim) == (trace norm of the partial transpose over the second subsystem of the density matrix - 1) / 2"),
+    "log_negativity": ("toqito/state_props/log_negativity.py", [("rho", "arr"), ("dim", "arr")], ["not dim is None", "isinstance(dim, list)", "never isinstance(dim, int)", "never np.prod(dim) != rho_dims[0]"],
+                       lambda e: uf("np.log2", R, uf("np.linalg.norm[ord='nuc']", R, tq("partial_transpose", Arr, consts=["sys=[1]"], rho=tq("to_density_matrix", Arr, input_array=e["rho"]), dim=uf("map[int(x.item()) for x]", Arr, uf("np.array", Arr, e["dim"]))))),
+                       "log_negativity(rho, dim) == log2 of the trace norm of the partial transpose over the second subsystem"),
     "purity": ("toqito/state_props/purity.py", [("rho", "arr")], ["is_density(rho)"], lambda e: uf("np.real", R, tr(uf("np.linalg.matrix_power[2]", Arr, e["rho"]))), "purity == Re Tr(rho^2)"),
 }
